@@ -242,7 +242,7 @@ impl Monitor for HandoverMonitor {
         let batch_clean = p.rx.len() > 1 && p.rx.iter().all(|r| matches!(r.verdict, RxVerdict::Consumed { .. })) && p.pre.in_ring;
         for r in p.rx {
             match &r.verdict {
-                RxVerdict::Consumed { frame, src, last } => {
+                RxVerdict::Consumed { frame, src, last, .. } => {
                     let ps_model = if batch_clean { Some(model_ps(las_model, ts)) } else { None };
                     if let Frame::Token { da, sa } = frame {
                         if *sa != ts && *sa <= 125 && *da <= 125 && (*da != ts || !*last) {
